@@ -284,6 +284,11 @@ Inductive call :=
 | RandomGet (buf len : Z) | SockAccept (fd fl res_ : Z) | SockRecv (fd iovs cnt fl res1 res2 : Z) | SockSend (fd iovs cnt fl res_ : Z)
 | SockShutdown (fd how : Z).
 
+(* fdFilestatSetTimesFn falls back to f.FS.Utimens(f.Name, ..) when File.Utimens answers EPERM/ENOSYS.
+   false = the current tree: the fallback does not check that the entry has a file system (nil for stdio and sockets);
+   set to true once the code keeps the errno when f.FS == nil (then [C15_no_host_panic] has no exception left). *)
+Definition set_times_checks_fs : bool := false.
+
 Definition fd_seek (e : env) (m : mem) (h : host) (fd res_ : Z) : res :=
   with_fd e (i32 fd) (fun x =>
     if f_dir x then ret (Errno EISDIR) else hostop (h_e1 h) (fun _ => g_wfix m res_ 8 efault done)).
@@ -325,7 +330,8 @@ Definition wasi (e : env) (m : mem) (v : view) (h : host) (c : call) : res :=
       with_fd e (i32 fd) (fun x =>
         if times_invalid (wrap 16 fl) then ret (Errno EINVAL)
         else if (h_e1 h =? EPERM) || (h_e1 h =? ENOSYS)
-             then (if nofs x then ret Panic                  (* f.FS.Utimens on a nil FS *)
+             then (if nofs x
+                   then (if set_times_checks_fs then ret (Errno (h_e1 h)) else ret Panic)   (* f.FS.Utimens on a nil FS *)
                    else hostop (h_e2 h) done)
              else hostop (h_e1 h) done)
   | FdPread fd iovs cnt _ r =>
@@ -441,6 +447,14 @@ Definition desig_iovs (c : call) : Z :=
   | FdPread _ _ cnt _ _ | FdRead _ _ cnt _ | SockRecv _ _ cnt _ _ _ => cnt
   | _ => 0
   end.
+(* descriptors whose table entry the call may change: the ones it names (-1: one fresh descriptor) *)
+Definition desig_fds (c : call) : list Z :=
+  match c with
+  | FdClose fd => [i32 fd]
+  | FdRenumber fd to => [i32 fd; i32 to]
+  | PathOpen _ _ _ _ _ _ _ _ _ | SockAccept _ _ _ => [-1]
+  | _ => []
+  end.
 Definition sub_region (w d : Z * Z) : Prop := fst d <= fst w /\ fst w + snd w <= fst d + snd d.
 Definition desig (e : env) (v : view) (c : call) (d : Z * Z) : Prop :=
   In d (desig_list e c) \/ (exists i, 0 <= i < desig_iovs c /\ d = v_iov v i)
@@ -483,20 +497,22 @@ Fixpoint covered (diff ws : list (Z * Z)) : bool :=
   match diff with [] => true | w :: r => cover1 (S (length ws)) ws (fst w) (fst w + snd w) && covered r ws end.
 
 (* a case: environment, memory length, placed bytes, iovec base, subscription base, call, candidate host answers,
-   observed (kind, errno), observed memory diff, observed reader/writer buffer lengths (or [-1] when not observable) *)
-Definition case := (env * Z * list (Z * Z) * Z * Z * call * list (Z * Z * Z * Z * list (Z * Z)) * (Z * Z) * list (Z * Z) * list Z)%type.
+   observed (kind, errno), observed memory diff, observed reader/writer buffer lengths (or [-1] when not observable),
+   descriptors whose table entry changed (-1 for a descriptor that did not exist before) *)
+Definition case := (env * Z * list (Z * Z) * Z * Z * call * list (Z * Z * Z * Z * list (Z * Z)) * (Z * Z) * list (Z * Z) * list Z * list Z)%type.
 
-Definition accepts (e : env) (m : mem) (v : view) (c : call) (ob : Z * Z) (diff : list (Z * Z)) (calls : list Z)
+Definition accepts (e : env) (m : mem) (v : view) (c : call) (ob : Z * Z) (diff : list (Z * Z)) (calls chg : list Z)
                    (hc : Z * Z * Z * Z * list (Z * Z)) : bool :=
   let '(e1, e2, e3, n, rw) := hc in
   let r := wasi e m v (host_of e1 e2 e3 n rw) c in
   obs_eqb r (fst ob) (snd ob) && covered diff (r_w r)
-  && (match calls with [-1] => true | _ => zlist_eqb (r_calls r) calls end).
+  && (match calls with [-1] => true | _ => zlist_eqb (r_calls r) calls end)
+  && forallb (fun f => existsb (Z.eqb f) (r_fds r)) chg.
 
 (* 0: some candidate host answer explains the observation; 1: none does *)
 Definition check_case (cs : case) : Z :=
-  let '(e, len, d, iovs, inp, c, hcs, ob, diff, calls) := cs in
-  if existsb (accepts e (mem_of len) (view_of d iovs inp) c ob diff calls) hcs then 0 else 1.
+  let '(e, len, d, iovs, inp, c, hcs, ob, diff, calls, chg) := cs in
+  if existsb (accepts e (mem_of len) (view_of d iovs inp) c ob diff calls chg) hcs then 0 else 1.
 
 Fixpoint mismatches (i : Z) (cs : list case) : list (Z * Z) :=
   match cs with
